@@ -15,6 +15,7 @@ import (
 	"go/constant"
 	"go/token"
 	"go/types"
+	"os"
 	"sort"
 	"strconv"
 	"strings"
@@ -124,14 +125,15 @@ func polySyms(p poly, prefix string) map[int]bool {
 // pathCtx: polynomial expansion along one CFG path (phis take the edge the path came in by).
 type pathCtx struct {
 	canonCtx
-	pos     map[*ssa.BasicBlock]int // position of each block on the path
-	path    []*ssa.BasicBlock
-	stateOf map[*ssa.Phi]int // header phis carrying state j
-	kernel  *ssa.Function
-	frames  map[*ssa.Call]*frame // helper calls inlined along one of their paths
-	cur     *frame               // the frame in which helper-local values are being read (nil: the kernel)
-	symIdx  map[symKey]int
-	syms    []symKey
+	shareFramedOnly bool                    // R12.5: look only at divisors formed inside an inlined helper
+	pos             map[*ssa.BasicBlock]int // position of each block on the path
+	path            []*ssa.BasicBlock
+	stateOf         map[*ssa.Phi]int // header phis carrying state j
+	kernel          *ssa.Function
+	frames          map[*ssa.Call]*frame // helper calls inlined along one of their paths
+	cur             *frame               // the frame in which helper-local values are being read (nil: the kernel)
+	symIdx          map[symKey]int
+	syms            []symKey
 }
 
 // frame: one call of a scalar helper, followed along one acyclic path entry → return.
@@ -262,6 +264,9 @@ func (pc *pathCtx) checkVolumeShare(name string, e poly, bad *map[string]string,
 	for den, num := range byDen {
 		var id int
 		fmt.Sscanf(den, "/s%d", &id)
+		if pc.frames != nil && !pc.shareFramedOnly || pc.shareFramedOnly && pc.syms[id].fr == nil {
+			continue // divisors of the kernel's own are judged with the helper results left opaque (no cancellation against a helper's terms)
+		}
 		save := pc.cur
 		pc.cur = pc.syms[id].fr
 		D := pc.ex(pc.syms[id].v, 0)
@@ -301,6 +306,9 @@ func (pc *pathCtx) checkVolumeShare(name string, e poly, bad *map[string]string,
 			}
 		}
 		k := name
+		if os.Getenv("OWCHECK_DEBUG_SHARE") != "" && !found {
+			fmt.Fprintf(os.Stderr, "SHARE %s den=%s D=%s\n  num=%s\n", name, den, showPoly(D), showPoly(num))
+		}
 		if found {
 			okm[k] = true
 		} else if _, seen := (*bad)[k]; !seen {
@@ -1019,8 +1027,10 @@ func checkMassBalance(p *Program, r *Report) {
 			shareBad        map[string]string // mass expression → why its volume share is not a share
 			shareOK         map[string]bool
 		}
+		shareFramedOnly := false
 		evaluate := func(path []*ssa.BasicBlock, frames map[*ssa.Call]*frame) verdict {
 			pc := newCtx(path, frames)
+			pc.shareFramedOnly = shareFramedOnly
 			condVal := map[condKey]bool{}
 			vd := verdict{feasible: true, pc: pc, shareBad: map[string]string{}, shareOK: map[string]bool{}}
 			zeroIn := map[string]string{}
@@ -1236,12 +1246,6 @@ func checkMassBalance(p *Program, r *Report) {
 				}
 			}
 			nBal++
-			if polyIsZero(vd.residual) {
-				r.OK("R12.2", pkey+" ("+describePath(p, path)+"): balance closes identically")
-				continue
-			}
-			// The budget does not close with helper results left opaque: decide it with the scalar helpers called
-			// on the path inlined, along every path of theirs.
 			var inl []*ssa.Call
 			var inlPaths [][][]*ssa.BasicBlock
 			for _, b := range path {
@@ -1260,6 +1264,22 @@ func checkMassBalance(p *Program, r *Report) {
 			for _, fp := range inlPaths {
 				combos *= len(fp)
 			}
+			// R12.5 for shares formed inside a helper (`concentration := mass / (outflowV + storedV)` moved out of the
+			// kernel): each scalar helper inlined on its own, the others left opaque, so that nothing of another
+			// helper's can cancel against the volumes.
+			shareFramedOnly = true
+			for i, c := range inl {
+				for _, hp := range inlPaths[i] {
+					noteShares(evaluate(path, map[*ssa.Call]*frame{c: newFrame(c, hp)}))
+				}
+			}
+			shareFramedOnly = false
+			if polyIsZero(vd.residual) {
+				r.OK("R12.2", pkey+" ("+describePath(p, path)+"): balance closes identically")
+				continue
+			}
+			// The budget does not close with helper results left opaque: decide it with the scalar helpers called
+			// on the path inlined, along every path of theirs.
 			if len(inl) == 0 || combos > 4096 {
 				r.Fail("R12.2", pkey, p.Pos(k.Pos()), fmt.Sprintf("%s (%s): on the path through one timestep with branches [%s] the budget does not close: (states after + mass out) − (states before + mass in), cleared of denominators, is %s", m.Name, spec.note, describePath(p, path), pc.show(p, m, vd.residual)))
 				continue
@@ -1273,7 +1293,6 @@ func checkMassBalance(p *Program, r *Report) {
 					frames[c] = newFrame(c, inlPaths[i][choice[i]])
 				}
 				v2 := evaluate(path, frames)
-				noteShares(v2)
 				switch {
 				case !v2.feasible:
 					nInf++
